@@ -149,7 +149,7 @@ def finalStatus (guardExit : Bool) (st : Status) : Status :=
 /-- `integrate(t)` without events.  `finally: trim` sets `cap := counter + 1`. -/
 def integrate (cfg : Cfg α) (s : Sys α) (target : α) (orc : Oracle α) (fuel : Nat) : LoopOut α :=
   if s.crashed then { sys := s, reqs := [], guardExit := false, iters := 0 } else
-  if absC (target - s.tcur) < cfg.eps then { sys := s, reqs := [], guardExit := true, iters := 0 } else
+  if absC (target - s.tcur) < cfg.tolEps then { sys := s, reqs := [], guardExit := true, iters := 0 } else
   -- a new integration supersedes the outcome of an earlier failed or event-terminated call
   let st0 : Status := if s.status == 2 ∨ s.status == 3 ∨ s.status == 4 then 0 else s.status
   let dt2 := initialDt cfg s target
